@@ -211,6 +211,78 @@ def gen_mutants(path, funcs, limit=None):
         yield desc, new_src
 
 
+def gen_mutants_with_owner(path, funcs, limit=None):
+    """(owner qualname, description, new source): owner = innermost footprint function containing the line."""
+    ranges = [(lo, hi, q) for q, lo, hi in funcs]
+    for desc, new_src in gen_mutants(path, funcs, limit):
+        try:
+            ln = int(desc.split(' ')[0].rsplit(':', 1)[1])
+        except (ValueError, IndexError):
+            continue
+        best = None
+        for lo, hi, q in ranges:
+            if lo <= ln <= hi and (best is None or (hi - lo) < best[0]):
+                best = (hi - lo, q)
+        if best:
+            yield best[1], desc, new_src
+
+
+def run_union(job):
+    """Run one mutant against every property whose check reads the owner function."""
+    props, path, desc, new_src = job
+    rcs = [run_one((p, path, desc, new_src))[3] for p in props]
+    rel = os.path.relpath(path, REPO)
+    if any(rc == 1 for rc in rcs):
+        return rel, desc, 1, props
+    if any(rc == 2 for rc in rcs):
+        return rel, desc, 2, props
+    return rel, desc, 0, props
+
+
+def main_union(args):
+    """--union: a mutant survives only if NO property that reads its function reports it."""
+    t0 = time.time()
+    owners = {}        # qualname -> set(props)
+    files = {}         # path -> {qualname: (lo, hi)}
+    for prop in args.props:
+        for path, funcs in footprint(prop).items():
+            if not path.startswith(REPO):
+                continue
+            for q, lo, hi in funcs:
+                owners.setdefault(q, set()).add(prop)
+                files.setdefault(path, {})[q] = (lo, hi)
+    jobs = []
+    for path, fm in sorted(files.items()):
+        funcs = [(q, lo, hi) for q, (lo, hi) in fm.items()]
+        for q, desc, new_src in gen_mutants_with_owner(path, funcs, args.max):
+            jobs.append((sorted(owners[q]), path, desc, new_src))
+    print(f'union sweep: {len(jobs)} mutants of {len(owners)} functions in {len(files)} files; '
+          f'{sum(len(j[0]) for j in jobs)} check runs', flush=True)
+    with cf.ThreadPoolExecutor(max_workers=args.j) as ex:
+        res = list(ex.map(run_union, jobs))
+    det = [r for r in res if r[2] == 1]
+    err = [r for r in res if r[2] == 2]
+    sil = [r for r in res if r[2] == 0]
+    triage = {}
+    tp = os.path.join(HERE, 'automutate_triage.json')
+    if os.path.exists(tp):
+        triage = json.load(open(tp))
+    judged = triage.get('union', {})
+    open_ = [r for r in sil if f'{r[0]}|{r[1]}' not in judged]
+    print(f'union: {len(res)} mutants: {len(det)} reported by at least one property, {len(err)} ANALYSIS-ERROR only, '
+          f'{len(sil)} survive every property that reads the function ({len(sil) - len(open_)} triaged, {len(open_)} open)')
+    for r in open_:
+        print(f'   SURVIVOR {r[0]}|{r[1]}   (checked by {",".join(r[3])})')
+    for r in err:
+        print(f'   ERROR    {r[0]}|{r[1]}')
+    print(f'({time.time() - t0:.0f}s)')
+    if args.json:
+        with open(args.json, 'w') as fh:
+            json.dump(dict(mutants=len(res), detected=len(det), analysis_error=len(err), survivors=len(sil),
+                           survivors_triaged=len(sil) - len(open_), survivors_open=[f'{r[0]}|{r[1]}' for r in open_]), fh, indent=1)
+    return 0
+
+
 def _find_parent(tree, node):
     for p in ast.walk(tree):
         for field in ('body', 'orelse', 'finalbody'):
@@ -278,7 +350,10 @@ def main():
     ap.add_argument('--max', type=int, default=None, help='max mutants per file (deterministic thinning)')
     ap.add_argument('--list-silent', action='store_true')
     ap.add_argument('--json', default=None)
+    ap.add_argument('--union', action='store_true', help='a mutant counts as silent only if no property that reads its function reports it')
     args = ap.parse_args()
+    if args.union:
+        return main_union(args)
     triage = {}
     tp = os.path.join(HERE, 'automutate_triage.json')
     if os.path.exists(tp):
